@@ -281,6 +281,32 @@ func c10Eval(t *testing.T, run *h.Run, c c10Case) {
 				viol("C10/resources: container resources are not annotation > valid setting > template", fmt.Sprintf("container %s got %v want %v", ct.Name, ct.Resources, want))
 			}
 		}
+		// --- the same first sync with every single read rejected: whatever pod is created must still be right
+		{
+			sc := &w.Scenario{Name: "C10-lattice", Cfg: w.Config{AffinityMode: c.Affin}, Tpls: w.TplMap("A")}
+			stepHere := func(fn func(int, *w.Call) string) *w.StepOut { // we are already inside a bubble
+				l2 := w.NewLive(st, sc.Cfg)
+				l2.API.FaultFn = fn
+				return w.Apply(l2, st, w.Event{K: "R_ers", A: "ns/" + rs.Name}, sc.Tpls)
+			}
+			base := stepHere(nil)
+			for k, call := range base.Log {
+				if call.IsWrite() {
+					continue
+				}
+				k := k
+				out := stepHere(func(idx int, cc *w.Call) string {
+					if idx == k {
+						return w.FaultReject
+					}
+					return ""
+				})
+				run.Count("read_fault_syncs", 1)
+				mc := w.NewMonCtx(sc, st, out, run, func() (int, []w.Event) { return 0, nil })
+				mc.Extra = map[string]interface{}{"lattice_case": c, "rejected_read": call.Key()}
+				w.MonC10(mc)
+			}
+		}
 		// --- stable: same inputs, pod bound and Ready => nothing is created or deleted
 		in := l.API.Inner()
 		pods := &corev1.PodList{}
@@ -372,12 +398,12 @@ func TestC10(t *testing.T) {
 	}
 	cases := c10Cases()
 	parallel(len(cases), func(i int) { c10Eval(t, run, cases[i]) })
-	run.Cov["evaluations"] = int64(len(cases)) + run.Counter("perturbations")
+	run.Cov["evaluations"] = int64(len(cases)) + run.Counter("perturbations") + run.Counter("read_fault_syncs")
 	run.Cov["states"] = int64(len(cases))
 	run.Cov["transitions"] = int64(2*len(cases)) + run.Counter("perturbations")
 	run.Cov["traces_validated_against_impl"] = int64(len(cases))
 	run.Sample(cases[17])
 	run.Sample(cases[len(cases)/2+5])
 	run.Assumptions = []string{"a malformed override annotation is not a usable override (falls through to setting / template)", "single node, single applicable setting (C18 decides multiplicity)"}
-	exit(run.Finish("lattice: templates (1-2 containers, with/without resources) x affinity {none, 1 term, 2 terms, foreign metadata.name field, preferred only} x nodeSelector x toleration x node override annotation {absent, well-formed, malformed, other container} x setting {none, requests, limits, both, other container, not valid} x both assignment modes; for each: real R_ers creates the pod (checked), kubelet binds it, a second R_ers must leave it alone, and every applicable single-field perturbation (template, annotation value, annotation added, setting value) must get it deleted; non-trivial = distinct stable classes"))
+	exit(run.Finish("lattice: templates (1-2 containers, with/without resources) x affinity {none, 1 term, 2 terms, foreign metadata.name field, preferred only} x nodeSelector x toleration x node override annotation {absent, well-formed, malformed, other container} x setting {none, requests, limits, both, other container, not valid} x both assignment modes; for each: real R_ers creates the pod (checked), kubelet binds it, a second R_ers must leave it alone, the same first sync is repeated with every single read call rejected (any pod created must still be right), and every applicable single-field perturbation (template, annotation value, annotation added, setting value) must get it deleted; non-trivial = distinct stable classes"))
 }
